@@ -314,6 +314,28 @@ theorem chase_stops_at_deadline (s : ChaseState) (evs : List ChaseEv) (h : s.exp
     exact ⟨by rw [show chaseRun s (e :: t) = chaseRun (chaseStep s e) t from rfl, this.1, hs.1],
            by rw [show chaseRun s (e :: t) = chaseRun (chaseStep s e) t from rfl]; exact this.2⟩
 
+/-- **One chase level follows at most `cnameDepth` hops and never the same
+target twice**, whatever alias data the sub-queries reveal (any successor
+function: loops that return to the start, rho-shaped loops, endless chains). -/
+theorem chase_level_bounded (next : Nat → Option Nat) (fuel : Nat) (vis : List Nat) (t : Nat)
+    (hn : vis.Nodup) :
+    (chaseLevel next fuel vis t).length ≤ fuel + vis.length ∧ (chaseLevel next fuel vis t).Nodup := by
+  induction fuel generalizing vis t with
+  | zero => simp [chaseLevel, hn]
+  | succ d ih =>
+    unfold chaseLevel
+    by_cases hc : vis.contains t = true
+    · simp only [hc, if_true]; exact ⟨by omega, hn⟩
+    · simp only [hc]
+      have hnot : t ∉ vis := by simpa using hc
+      have hn' : (t :: vis).Nodup := List.nodup_cons.mpr ⟨hnot, hn⟩
+      cases hnx : next t with
+      | none => simp only [Bool.false_eq_true, if_false]; exact ⟨by simp; omega, hn'⟩
+      | some t' =>
+        simp only [Bool.false_eq_true, if_false]
+        have := ih (t :: vis) t' hn'
+        exact ⟨by simp at this ⊢; omega, this.2⟩
+
 /-- The nesting / chain caps the termination argument rests on are at most the
 values it was stated for (raising one is flagged, lowering is not). -/
 theorem nesting_caps_fact :
@@ -567,6 +589,7 @@ theorem termination_guards_shape :
     SdnsVerif.Gen.C12.shape_nomin_retry_only_when_minimized = true ∧
     SdnsVerif.Gen.C12.shape_checkloop_before_ns_lookup = true ∧
     SdnsVerif.Gen.C12.shape_chase_checks_deadline = true ∧
+    SdnsVerif.Gen.C12.shape_chase_state_outside_loop = true ∧
     SdnsVerif.Gen.C12.shape_resolvestate_literals_carry_work = true ∧
     SdnsVerif.Gen.C12.shape_cacheable_reads_ledger_at_decision = true ∧
     SdnsVerif.Gen.C12.shape_resolve_relabels_unconditionally = true ∧
@@ -645,6 +668,11 @@ example : zoneFailureRecordable true false false none = true := by decide
 -- the refresh branch swallowed a refused debit, resolve() still found its answer: the outcome is the policy error
 example : resolveOutcome pol2 { first := Kind.internal.idx + 1 } .answer = .policy .internal 1 := by decide
 example : resolveOutcome pol2 {} .answer = .answer := by decide
+
+-- a rho-shaped loop 5 → 4 → 3 → 2 → 1 → 0 → 2: six exchanges, then the loop detector stops the level
+example : (chaseLevel (fun t => if t = 0 then some 2 else some (t - 1)) 10 [] 5).length = 6 := by decide
+-- an endless chain: ten exchanges, not one more
+example : (chaseLevel (fun t => some (t + 1)) 10 [] 0).length = 10 := by decide
 
 -- a chase that took three hops, then the deadline passed: the next two hop attempts start nothing
 example : (chaseRun {} [.hop, .hop, .hop, .deadline, .hop, .hop]).started = 3 := by decide
